@@ -32,7 +32,7 @@ func C02(e *simkern.Env) {
 		sv = "3.4.5"
 	}
 	ops := pipew.GenOps(tp, pipew.GenCfg{MinOps: 1, MaxOps: maxOps, Bad: true, BadStream: true, FailBias: 5, InitFail: true,
-		Cancel: true, Cast: true, BadCast: true, WriteAhead: true, Levels: true, MaxTurns: 5, NonceBase: 1000, ServerVersion: sv, AfterCancel: true, ZeroRows: true})
+		Cancel: true, Cast: true, BadCast: true, WriteAhead: true, Levels: true, MaxTurns: 5, NonceBase: 1000, ServerVersion: sv, AfterCancel: true, ZeroRows: true, NoHook: true})
 	e.Knob("server_protocol_version", sv)
 	kn := pipew.DrawKnobs(tp)
 	transport := tp.Pick(0, 0, 1, 2) // pipe, pipe, unix listener, tcp listener
